@@ -374,6 +374,47 @@ def steered_mnemonics(R, keys, rng, per_feature):
             R.count('steered_mnemonics')
             R.case(mon.fp('steered', tuple(words)))
         R.extra.setdefault('steered_search_tries', {})[fname] = tries
+    # a long run of bad luck: the entropy source yields 1500 (thorough: 4000) word lists in a row that are not basic seeds before one that is (each draw is rejected
+    # with probability 255/256, so runs of any length occur); the generator must simply keep drawing
+    for run_len in ([1500] if per_feature == 1 else [1500, 4000]):
+        rejected = []
+        while len(rejected) < run_len:
+            cand = [wl[rng.randrange(len(wl))] for _ in range(24)]
+            if not basic(entropy(cand)):
+                rejected.append(cand)
+        while True:
+            target = [wl[rng.randrange(len(wl))] for _ in range(24)]
+            if basic(entropy(target)):
+                break
+        stream = [wl.index(w) for lst in rejected + [target] for w in lst]
+        served = [0]
+
+        class _OS2:
+            def __getattr__(self, k):
+                return getattr(real_os, k)
+
+            def urandom(self, n):
+                if served[0] < len(stream) and n >= 2:
+                    i = stream[served[0]]
+                    served[0] += 1
+                    return i.to_bytes(2, 'big') + bytes(n - 2)
+                return real_os.urandom(n)
+        old = keys.os
+        keys.os = _OS2()
+        try:
+            st, words = mon.call(keys.mnemonic_new)
+        finally:
+            keys.os = old
+        W = {'rejected_draws_before_success': run_len}
+        R.counters['oracle_evaluations'] += 1
+        if st == 'exc':
+            R.exc(words)
+            R.violation(f'mnemonic-new-raises-after-many-rejected-draws-{type(words).__name__}', f'mnemonic_new raised {words!r} when its entropy source gave {run_len} rejected word lists in a row', W)
+        else:
+            R.count('steered_as_intended' if words == target else 'steered_but_other_output')
+            R.check(keys.mnemonic_is_valid(words) is True, 'generated-mnemonic-invalid', 'mnemonic_is_valid is false for a mnemonic the generator produced after a long run of rejected draws', dict(W, words=words))
+        R.count('long_rejection_runs')
+        R.case(mon.fp('badluck', run_len))
 
 
 def replay(R, w, rec):
